@@ -4,6 +4,7 @@ mod c08tls;
 mod c10net;
 mod c13;
 mod c14;
+mod c09resume;
 mod c15;
 mod c15accept;
 mod c15tls;
@@ -92,6 +93,30 @@ fn main() {
                 let _ = std::fs::write(out, serde_json::to_string(&ev.to_json()).unwrap());
             } else {
                 println!("c10serial: {:?} violations {}", ev.counters, ev.violations.len());
+            }
+            0
+        }
+        "c12serial" => {
+            // the serial client's inter-frame silence vs. response timeouts and frames arriving during it
+            // (C12 evidence incl. the C11 clause for frames received before transmission; merged by the sim engine)
+            let rt = tokio::runtime::Builder::new_multi_thread().worker_threads(4).enable_all().build().unwrap();
+            let mut ev = vcommon::report::Evidence::new();
+            for k in 0..args.tier.pick(3usize, 18) {
+                for scenario in [0usize, 1] {
+                    let mut e = vcommon::report::Evidence::new();
+                    let problems = rt.block_on(serial::serial_gap(scenario, k, &mut e));
+                    ev.merge(e);
+                    ev.eval();
+                    serial::merge(&mut ev, problems, "c12serial");
+                }
+            }
+            if let Some(out) = args.extra.get("out") {
+                let _ = std::fs::write(out, serde_json::to_string(&ev.to_json()).unwrap());
+            } else {
+                for v in ev.violations.iter() {
+                    println!("violation: sig={} :: {}", v.sig, v.what);
+                }
+                println!("c12serial: {:?} {:?}", ev.counters, ev.inconclusive);
             }
             0
         }
